@@ -21,7 +21,7 @@ type XMLOpts struct {
 
 var xmlNames = []string{"a", "b", "c", "d", "item", "e-f", "Name", "ns:g", "x1", "list", "ab", "items", "a1", "B"}
 var xmlAttrNames = []string{"id", "k", "x", "y-z", "Ref", "n", "idx", "key", "xa"}
-var xmlTexts = []string{"v", "1", "true", "hello world", "3.14", " padded ", "x&amp;y", "&lt;tag&gt;", "q&quot;&apos;", "é☃", "<![CDATA[<c>&d]]>", "a>b", "0", "-7", "line1\nline2", "]", "}{"}
+var xmlTexts = []string{"v", "1", "true", "hello world", "3.14", " padded ", "x&amp;y", "&lt;tag&gt;", "q&quot;&apos;", "é☃", "<![CDATA[<c>&d]]>", "a>b", "0", "-7", "line1\nline2", "]", "}{", "100%", "a%20b %s %d", "50%% off", "$1 #2 @3", "tab\there"}
 
 func genXMLDoc(t *Tape, o XMLOpts) string {
 	var b strings.Builder
@@ -135,7 +135,7 @@ var interDocWS = []string{"", "\n", " ", "\r\n", "\t", "\n\n  ", "   "}
 // ---------------------------------------------------------------- JSON documents
 
 var jsonKeys = []string{"a", "b", "k", "name", "list", "x y", "-id", "#text", "q\"k", "é"}
-var jsonStrs = []string{"v", "", "hello", "{", "}", "[x]", "a\"b", "back\\", "\\", "tab\there", "<&>", "}{\"", "é☃", "nl\nx", " sp ", "\\\"", "{\"k\":1}", "\\u003c", "x\\"}
+var jsonStrs = []string{"v", "", "hello", "{", "}", "[x]", "a\"b", "back\\", "\\", "tab\there", "<&>", "}{\"", "é☃", "nl\nx", " sp ", "\\\"", "{\"k\":1}", "\\u003c", "x\\", "100%", "%s %v %!", "a%20b"}
 
 type JSONOpts struct {
 	WS       bool // inter-token whitespace
